@@ -40,7 +40,7 @@ const (
 var tags = []string{"a", "b"}
 
 type Op struct {
-	K string `json:"k"` // copy, sparse, refcopy, tagdel, mandel, putref, delref, tmp, close
+	K string `json:"k"` // copy, copyd (to the bare digest, no tag), sparse, refcopy, tagdel, mandel, putref, delref, tmp, close
 	G string `json:"g,omitempty"`
 	T int    `json:"t"`
 }
@@ -49,6 +49,8 @@ func (o Op) String() string {
 	switch o.K {
 	case "copy", "sparse", "refcopy":
 		return fmt.Sprintf("%s(%s->%s)", o.K, o.G, tags[o.T])
+	case "copyd":
+		return "copy(" + o.G + "->digest only)"
 	case "tagdel":
 		return "tagDelete(" + tags[o.T] + ")"
 	case "mandel":
@@ -64,7 +66,7 @@ func (o Op) String() string {
 func alphabet(thorough bool) []Op {
 	ops := []Op{
 		{"copy", "G1", 0}, {"copy", "G3", 0}, {"copy", "G4", 1}, {"copy", "G15", 1}, {"copy", "G11", 1}, {"copy", "G10", 0},
-		{"refcopy", "G13", 0}, {"sparse", "G3", 1},
+		{"refcopy", "G13", 0}, {"sparse", "G3", 1}, {"copyd", "G1", 0}, {"copyd", "G10", 0},
 		{"tagdel", "", 0}, {"tagdel", "", 1}, {"mandel", "G3", 0},
 		{"putref", "", 0}, {"delref", "", 0}, {"tmp", "", 0}, {"close", "", 0},
 	}
@@ -142,6 +144,9 @@ func (w *World) do(ctx context.Context, o Op) error {
 	switch o.K {
 	case "copy":
 		return w.rc.ImageCopy(ctx, w.src(o.G), tgt)
+	case "copyd":
+		// addressed by digest only: the layout keeps an untagged index entry as the image's only root
+		return w.rc.ImageCopy(ctx, w.src(o.G), w.base.SetDigest(graph(o.G).Top))
 	case "refcopy":
 		return w.rc.ImageCopy(ctx, w.src(o.G), tgt, regclient.ImageWithReferrers())
 	case "sparse":
@@ -314,8 +319,36 @@ func runHist(t *testing.T, hist []Op, scratch string) histResult {
 				// every tag still resolves to content that was there before
 				continue
 			}
+			_, tagsB, untB, _, errB := audit.ReadLayout(w.dir)
 			if err := w.do(ctx, o); err != nil {
 				r.failed++
+			}
+			// a push or copy adds roots or moves tags; it never takes away the root of other content: an
+			// untagged index entry is the only thing that keeps a digest-addressed image from the next
+			// collection, so it may only go by becoming a tagged entry of the same digest
+			if errB == nil && (o.K == "copy" || o.K == "copyd" || o.K == "sparse" || o.K == "refcopy" || o.K == "putref") {
+				_, tagsA, untA, _, errA := audit.ReadLayout(w.dir)
+				if errA == nil {
+					roots := map[string]bool{}
+					for _, d := range untA {
+						roots[d] = true
+					}
+					for _, d := range tagsA {
+						roots[d] = true
+					}
+					for _, d := range untB {
+						if !roots[d] {
+							r.vk, r.vm = "push-dropped-untagged-root", fmt.Sprintf("%s removed the index entry of %s, which was pushed by digest and never deleted: the next collection deletes it (step %d of %s)", o, short(d), i+1, histStr(hist))
+							return
+						}
+					}
+					for tg, d := range tagsB {
+						if _, still := tagsA[tg]; !still {
+							r.vk, r.vm = "push-dropped-tag", fmt.Sprintf("%s removed tag %s (%s) from the index (step %d of %s)", o, tg, short(d), i+1, histStr(hist))
+							return
+						}
+					}
+				}
 			}
 		}
 	})
